@@ -129,4 +129,34 @@ def decRangeFinal (mode bandwidth nCh spf48 : Nat) (frame : Bytes) (o : FrameOut
 def CeltFrameRT (cfg : CeltSyms.CeltCfg) (len : Nat) (d : Dec) (rng : Nat) : Prop :=
   ∃ cf, CeltBands.celtFrame cfg len d = .ok cf ∧ cf.fin.c.rng = rng
 
+/-! ## CELT-only frames, and the decoder's final range by mode -/
+
+/-- A CELT-only frame: whatever `celt_encode_with_ec` does on the frame's coder (`ops`, its `ec_enc_shrink`s
+    included) and its `ec_enc_done`; the frame is the final `storage` bytes, `rangeFinal = enc.rng`
+    (opus_encoder.c:2365-2378, 2421 with `redundant_rng = 0`). -/
+def celtOnlyFrame (buf : List Nat) (size : Nat) (ops : List Op) : FrameEnc :=
+  let e := encodeAll buf size ops
+  { payload := e.buf.take e.storage, rangeFinal := e.rng }
+
+/-- `st->rangeFinal` of `opus_decode_frame` for a CELT-only frame with `len > 1` (opus_decoder.c:313, 589-596, 670-673:
+    no SILK part, no redundancy; `celt_decode_with_ec` from band 0 on the coder initialised on the frame). -/
+def celtRangeFinal (bandwidth nCh spf48 : Nat) (frame : Bytes) : Res Nat :=
+  match CeltBands.celtFrame { start := 0, end_ := CeltSyms.endBandOf bandwidth, C := nCh, LM := CeltSyms.lmOf spf48 }
+          frame.length (decInit frame frame.length) with
+  | .ok cf => .ok cf.fin.c.rng
+  | .err e => .err e
+  | .oob => .oob
+  | .abort => .abort
+
+/-- `st->rangeFinal` after `opus_decode_frame` on one frame of more than one byte, for every mode (1000 SILK-only,
+    1001 hybrid, 1002 CELT-only): C03's SILK / redundancy-parse model, then C03's CELT frame model(s). -/
+def frameRangeFinal (mode bandwidth nCh ms10 spf48 : Nat) (st : SilkSt) (frame : Bytes) : Res Nat :=
+  if mode = 1002 then celtRangeFinal bandwidth nCh spf48 frame
+  else
+    match decodeOpusFrame mode bandwidth nCh ms10 false st frame with
+    | .ok o => decRangeFinal mode bandwidth nCh spf48 frame o
+    | .err e => .err e
+    | .oob => .oob
+    | .abort => .abort
+
 end Opus.OpusFrameEnc
